@@ -241,7 +241,7 @@ class Plucker(SMUserList):
             # additional arguments
             if not (base.isvector(v, 3) and base.isvector(w, 3)):
                 raise ValueError('expecting two 3-vectors')
-            self.data = [np.r_[v, w]]
+            self.data = [np.r_[base.getvector(v, 3), base.getvector(w, 3)]]  # (float64, like the other forms)
             
         # needed to allow __rmul__ to work if left multiplied by ndarray
         #self.__array_priority__ = 100  
